@@ -510,7 +510,33 @@ def catalogue(ck):
     F = OPB(description="utf è 中 {} %s"); F.add_constraint([(2, 1), (1, -2), "==", 2]); add("o-desc-utf", F)
     F = OPB(); F.header.clear(); F.add_constraint([(2, 1), (1, -2), "==", 2]); add("o-hdr-none", F)
     F = OPB(); v = F.new_variable("a\nb"); F.add_constraint([(2, v), ">=", 1]); add("o-lbl-brk", F)
-    return out
+    # sizes around the powers of two a buffered writer would pick
+    for m in (4097,) + (() if ck.quick else (9000, 16385)):
+        add("c-big%d" % m, unit_rows_cnf(m, n=7))
+        add("o-big%d" % m, unit_rows_opb(m, n=7))
+    # the same objects used again: rendered once, then changed (variables only / a row only / both) - what the
+    # writers produce afterwards must be the formula as it is now
+    import copy
+    again = []
+    for name, F in out:
+        if len(F) > 150 or header_has_break(F) or labels_have_break(F):
+            continue
+        for kind in ("v", "r", "b"):
+            G = copy.deepcopy(F)
+            try:
+                G.to_opb(); G.to_latex()
+                to_stream(G, fileformat="opb", export_header=True, export_varnames=True)
+                to_stream(G, fileformat="latex", export_header=True)
+            except Exception:
+                continue
+            n = G.number_of_variables()
+            if kind in "vb":
+                G.update_variable_number(n + 1)
+                G.new_variable("late_{{{}}}".format(n))
+            if kind in "rb":
+                G.add_clause([-max(1, G.number_of_variables())] if G.number_of_variables() else [])
+            again.append(("%s.%s" % (name[:14], kind), G))
+    return out + again
 
 
 def family_formulas(ck):
